@@ -479,7 +479,8 @@ pub fn replay(args: &Args) {
     let mode = if args.get("mode") == Some("mask") { Mode::Mask } else { Mode::Full };
     let laws = args.get("laws").map(Laws1::load);
     let kernels: Vec<String> = args.get("kernels").map(|s| s.split(',').map(|x| x.to_string()).collect()).unwrap_or_default();
-    for v in &cases {
+    for v in cases {
+        let v = &v;
         if get_str(v, "op") != "roll1" {
             continue;
         }
